@@ -639,3 +639,31 @@ Proof.
     + intros px py x y xs ys Pa Pb F N. rewrite Pa, Pb. apply lex_t_first_non_equal; assumption.
     + apply lex_t_all_equal.
 Qed.
+
+(* ---- the operators <, <=, >, >=, != on incomparable operands (C07_operators) ---- *)
+(* core::cmp::PartialOrd's provided methods lt / le / gt / ge and PartialEq's provided ne, as std defines them
+   from partial_cmp and eq (derive-where emits none of them). *)
+Definition std_lt (o : option comparison) : bool := match o with Some Lt => true | _ => false end.
+Definition std_le (o : option comparison) : bool := match o with Some Lt | Some Datatypes.Eq => true | _ => false end.
+Definition std_gt (o : option comparison) : bool := match o with Some Gt => true | _ => false end.
+Definition std_ge (o : option comparison) : bool := match o with Some Gt | Some Datatypes.Eq => true | _ => false end.
+Definition std_ne (e : bool) : bool := negb e.
+Theorem incomparable_operators :
+  forall (fval : Type) (feq : fval -> fval -> bool) (fpcmp : fval -> fval -> option comparison)
+         (it : item) (re : rust_enum) (a b : value fval),
+    incomparable_value it a = true \/ incomparable_value it b = true ->
+    std_lt (spec_pcmp fpcmp it re a b) = false /\ std_le (spec_pcmp fpcmp it re a b) = false /\
+    std_gt (spec_pcmp fpcmp it re a b) = false /\ std_ge (spec_pcmp fpcmp it re a b) = false /\
+    std_ne (spec_eq feq it a b) = true.
+Proof.
+  intros fval feq fpcmp it re a b H.
+  assert (P : spec_pcmp fpcmp it re a b = None).
+  { unfold spec_pcmp. destruct H as [-> | ->]; [reflexivity | rewrite orb_true_r; reflexivity]. }
+  assert (Q : spec_eq feq it a b = false).
+  { unfold spec_eq. destruct (variant_of it a) as [da|] eqn:Ha; [|reflexivity].
+    destruct (Nat.eqb_spec (v_idx a) (v_idx b)) as [E|E]; [|reflexivity].
+    assert (Hi : incomparable_value it a = true).
+    { destruct H as [H|H]; [assumption|]. unfold incomparable_value, variant_of in *. rewrite E. exact H. }
+    rewrite Hi. reflexivity. }
+  rewrite P, Q. repeat split; reflexivity.
+Qed.
